@@ -626,6 +626,31 @@ static void op_load(Json &out) {
     }
 }
 
+// two plug-ins alive in one process: each loaded problem must evaluate ITS OWN functions (the plug-ins define non-static functions with
+// the same names; a loader that opens modules with global symbol scope lets the first module's definitions interpose the second's)
+static void op_two(Json &out) {
+    std::string pa = vio::tok(), pb = vio::tok();
+    vec x = vio::rvec<vec>();
+    auto evalf = [&](alpaqa::dl::DLProblem &p) { return p.eval_f(x); };
+    auto gradf = [&](alpaqa::dl::DLProblem &p) { vec g(x.size()); p.eval_grad_f(x, g); return g; };
+    try {
+        { alpaqa::dl::DLProblem a{pa}; out.d("a_alone", evalf(a)).v("ga_alone", gradf(a)); }
+        { alpaqa::dl::DLProblem b{pb}; out.d("b_alone", evalf(b)).v("gb_alone", gradf(b)); }
+        {
+            alpaqa::dl::DLProblem a{pa};
+            alpaqa::dl::DLProblem b{pb};
+            out.d("a_both", evalf(a)).d("b_both", evalf(b)).v("ga_both", gradf(a)).v("gb_both", gradf(b));
+        }
+        {
+            alpaqa::dl::DLProblem b{pb};
+            alpaqa::dl::DLProblem a{pa};
+            out.d("a_both_rev", evalf(a)).d("b_both_rev", evalf(b));
+        }
+    } catch (const std::exception &e) {
+        out.s("load_exc", exc_name(e)).s("what", e.what());
+    }
+}
+
 // ------------------------------------------------------------------------------------------------ histories
 // ops: n | c w f | k w | a d s | d w | r w ; guard=1: stop (and report) instead of dereferencing a null shared_ptr
 template <class W, class Mk, class Call, class Snap>
@@ -761,6 +786,7 @@ int main() {
             if (op == "nlp") op_nlp(j);
             else if (op == "ocp") op_ocp(j);
             else if (op == "load") op_load(j);
+            else if (op == "two") op_two(j);
             else if (op == "hist") op_hist(j);
             else if (op == "f10") {
                 bool flag = vio::ri() != 0;
